@@ -62,6 +62,14 @@ CHECKS = {
         note="Blake2 collision and pre-image resistance assumed; hash material limited to values occurring in the structure. Proof internals are reached via the real bincode and JSON wire formats through mirror structs (a layout change surfaces as a rejected honest proof or a machinery error, not a silent pass). Overflow checks are on. Sizes above 16 are covered by fixed subsets only. Map-level entries count as committed leaves.",
         design="§4 C09",
     ),
+    "C10": dict(
+        level="exploration",
+        engine="mc-dbverify",
+        technique="bounded exhaustive input enumeration on the real client proving API: every database of 1-4 trios x every range x allow_missing x every single (thorough: pair of) tampering of the restored directory and of the served digest list, plus hostile-mirror combinations, judged against digests and a root the harness computed itself",
+        text="Every database of 1-3 (quick) / 1-4 (thorough) immutable trios, every Full/From/UpTo/Range range, both allow_missing settings, every single structural tampering of the restored directory (each byte flipped, truncations, deletions, every swap and copy between certified files, other spellings of file numbers, files beyond the beacon, extras, a decoy immutable directory) and of the served digest list (renames, drops, duplicates, foreign / swapped digests, every reordering, raw failures), the hostile-mirror combinations of both, and (thorough) all pairs from reduced alphabets are pushed through the public mithril-client API exactly as the CLI calls it (download_and_verify_digests, verify_cardano_database, compute_cardano_database_message, match_message). Accepted => the retained digest sequence equals the signed one, every canonical file of the range is present unless gaps were allowed, and every immutable-named file of the range hashes to the honest digest of that very name; the untampered directory is always accepted. 162k (quick) / 1.7M (thorough) evaluations.",
+        note="Trusted: SHA-256 (sha2), MKTree collision freedom (C09), the certificate taken as already validated (C03). The harness's independent digests and root are cross-checked at start-up against the real CardanoImmutableDigester. Directory listing order is that of tmpfs. Files of 4-8 bytes, <=4 trios. The archive download/unpack path is C19's subject.",
+        design="§4 C10",
+    ),
     "C14": dict(
         level="model_checking",
         engine="mc-aggregator",
